@@ -58,3 +58,47 @@ def handle (op : String) (j : Json) : Except String Json := do
   | _ => throw s!"unknown op {op}"
 
 end KD.PitchOps
+
+namespace KD.GkernOps
+open Lean KM KD Pitch Gkern
+
+def clefName : Clef → String
+  | .G2 => "G2" | .F3 => "F3" | .F4 => "F4" | .C1 => "C1" | .C2 => "C2" | .C3 => "C3" | .C4 => "C4"
+
+def decodeBottom (c : Clef) : Option (Letter × Int) :=
+  match bottomLine c with
+  | none => none
+  | some p => (Letter.all.find? (fun l => p.name == [l.upper])).map (fun l => (l, p.octave))
+
+def handle (op : String) (j : Json) : Except String Json := do
+  match op with
+  | "c10.case" =>
+    let clefText ← getStr j "clef"
+    let l := KD.PitchOps.letterOfNat (← getNat j "l")
+    let a ← getInt j "a"
+    let o ← getInt j "o"
+    let cl := createClef clefText
+    let model := match cl with
+      | .error e => Except.error e
+      | .ok c => pitchToGkern (pitchOf l a o) c
+    let spec := match cl with
+      | .error _ => Json.null
+      | .ok c => match decodeBottom c with
+        | none => Json.null
+        | some (bl, bo) =>
+          let d := 7 * o + l.idx - (7 * bo + bl.idx) + 30
+          Json.mkObj [("ok", jstr (spell (Letter.ofIdx (d % 7)) a (d / 7)))]
+    pure (Json.mkObj [("clef", jexcept (fun c => Json.str (clefName c)) cl), ("model", jexcept jstr model), ("spec", spec)])
+  | "c10.gkern" =>
+    -- arbitrary pitch object and clef text (tie only)
+    let clefText ← getStr j "clef"
+    let name ← getStr j "name"
+    let o ← getInt j "octave"
+    let model := match createClef clefText with
+      | .error e => Except.error e
+      | .ok c => match Pitch.mk name (some o) with
+        | .error e => Except.error e
+        | .ok p => pitchToGkern p c
+    pure (Json.mkObj [("model", jexcept jstr model)])
+  | _ => throw s!"unknown op {op}"
+end KD.GkernOps
